@@ -774,6 +774,44 @@ def _seam_box(ck):
                     "every element whose reference point lies inside the region", inputs, sorted(got), sorted(exp))
 
 
+def _cartesian_centre_histories(ck):
+    """coordinate selections with a Cartesian (x, y, z) centre go through the k-d tree: two selections for DIFFERENT element kinds
+    on one grid object - the second must select what it selects on a fresh grid (oracle: the elements nearest in chord distance)"""
+    for m in (mg.quad_patch(3, 2), mg.small_meshes()[6]):
+        src = Source(m)
+        lon, lat = np.asarray(m["lon"], float), np.asarray(m["lat"], float)
+        centre = tuple(float(np.ravel(v)[0]) for v in mg.xyz_of(np.array([lon[0] + 1.3]), np.array([lat[0] + 0.7])))
+        kinds = ("nodes", "face centers", "edge centers")
+        for first in kinds:
+            for second in kinds:
+                if first == second:
+                    continue
+                for call, args in (("nearest_neighbor", {"k": 2}), ("bounding_circle", {"r": 14.0})):
+                    ck.cases += 1
+                    ck.distinct.add((m["name"], "xyz_centre", first, second, call))
+                    inputs = {"mesh": m["name"], "call": f"subset.{call}", "args": dict(args, center_coord="(x, y, z)", element=second),
+                              "history": [f"subset.nearest_neighbor((x, y, z), k=1, element='{first}') on the same grid"]}
+                    try:
+                        fresh = getattr(grid_of(m).subset, call)(centre, element=second, **args)
+                        want = set(_identify(src, fresh)["face_ids"])
+                    except Exception:  # noqa: BLE001   (what a fresh grid does is the main pass's business)
+                        continue
+                    g = grid_of(m)
+                    try:
+                        g.subset.nearest_neighbor(centre, k=1, element=first)
+                        sub = getattr(g.subset, call)(centre, element=second, **args)
+                        got = set(_identify(src, sub)["face_ids"])
+                    except Exception as e:  # noqa: BLE001
+                        ck.fail(f"raises:{call}:{second.replace(' ', '_')}:xyz_centre:after_other_element_kind:{type(e).__name__}",
+                                f"raises {type(e).__name__}: {str(e)[:140]} (a fresh grid answers)",
+                                "the selection does not depend on which derived quantities were computed before", inputs, None, sorted(want))
+                        continue
+                    if got != want:
+                        ck.fail(f"faces_exact:{call}:{second.replace(' ', '_')}:xyz_centre:after_other_element_kind",
+                                "a Cartesian-centre selection made after one for another element kind selects other faces than on a fresh grid",
+                                "the selection does not depend on which derived quantities were computed before", inputs, sorted(got), sorted(want))
+
+
 def _coord_scenarios(ck):
     """data carrying a coordinate along the grid dimension: fixed scenarios (all faces in another order; one face)"""
     m = mg.quad_patch(2, 1)
@@ -1203,6 +1241,7 @@ def subsets(tier, seed):
         if _READY["jit"] and mi % 4 == 0:
             _threads(ck, src)
     _seam_box(ck)
+    _cartesian_centre_histories(ck)
     _coord_scenarios(ck)
     _shipped_edges(ck, rng)
     bound = (f"{done} meshes of the meshgen catalogue (<= {max(m['n_face'] for m in meshes)} faces), per mesh isel by face/node/edge "
